@@ -107,3 +107,20 @@ PROPS["C12"].update(
     level_text="Theorems hist_partition / hist_exactly_one_bucket / hist_no_panic / render_counts / unmarshal_preserves / unmarshal_covers_nonnegative are proved in Coq for all bucket lists and latency lists (unbounded) about a Gallina model of Histogram.Add, the renderers and Buckets.UnmarshalText; the model is tied to the Go code on every run by differential execution (extracted model vs real code) and the property is decided on every implementation observation by a checker defined in Coq.",
     technique="Coq induction over the add sequence (model), extracted-model differential correspondence",
 )
+
+reg("C10",
+    rule="a case = one result multiset (0..2000 results, every 97th index 2*10^4 / 10^5 in thorough; equal, "
+         "increasing, reversed, random timestamps; zero/small/huge latencies; 14 status codes; 7 error texts) "
+         "in one of 4 orders (in order, reversed with Close before anything and after every Add, two shuffles "
+         "one with Close every k adds), observed through the JSON report of the real reporter; non-trivial = "
+         "at least 2 results; distinct = distinct wire content",
+    clauses={1: "request count", 2: "status-code histogram", 3: "byte totals", 4: "latency total",
+             5: "latency max", 6: "latency min", 7: "earliest", 8: "latest", 9: "end", 10: "duration",
+             11: "wait", 12: "set of distinct error texts", 13: "rate", 14: "throughput", 15: "success ratio",
+             16: "means (bytes in/out, latency)"},
+    assumptions=["float fields (rate, throughput, success, byte means) are compared with the model's exact rational within a relative guard band of 2^-40; the latency mean within 1 ns + 2^-40",
+                 "domain: non-negative latencies/byte counts, sums below 2^64 / 2^63, timestamps 1970..2191 (so the zero time.Time is never a data value)",
+                 "percentiles are decided by C11, not here", "encoding/json and time.Time JSON formatting are used to read the report back"],
+    level_text="metrics_eq_ref, metrics_perm and close_idempotent_interleaved are proved in Coq for all result lists / permutations / placements of Close (unbounded) about a Gallina model of Metrics.Add/Close and LatencyMetrics.Add with the 64-bit wraps written out; the model is tied to the Go code on every run by differential execution and each implementation report is judged against the reference computation by a checker defined in Coq.",
+    technique="Coq induction + permutation invariance over the model, differential correspondence",
+    timeout={"quick": 600, "thorough": 3000})
